@@ -7,7 +7,9 @@ from . import common, conc
 from engine import build
 
 SCEN_QUICK = [["A", "A"], ["A", "B"], ["A", "bad"], ["bad", "bad"], ["A", "UTC"], ["A", "Fixed/UTC+01:00:00"], ["Fixed/UTC+01:00:00", "Fixed/UTC+01:00:00"]]
-SCEN_THOROUGH = SCEN_QUICK + [["A", "A", "A"], ["A", "A", "B"], ["A", "B", "bad"], ["A", "bad", "bad"], ["A", "UTC", "A"]]
+# three loader threads: only scenarios whose interleavings fit the path budget (the engine has no partial-order reduction; three
+# first-loads of file-backed names exceed 200000 schedules and are outside the claim)
+SCEN_THOROUGH = SCEN_QUICK + [["A", "UTC", "A"], ["A", "Fixed/UTC+01:00:00", "A"], ["bad", "UTC", "bad"], ["A", "UTC", "bad"], ["B", "A", "A"][:2] + ["UTC"]]
 
 def is_c20(desc): return desc.startswith("C20")
 
@@ -88,10 +90,10 @@ def run_prop(prop, tier, c20):
             if w: rep.violation(key, w + "  [names %s, schedule %s: %s]" % (names, " ".join(fobj.get("trace") or [])[:160], d), case)
             else: rep.spurious.append({"job": r["name"], "obligation": d, "schedule": fobj.get("trace")})
     rep.extra["schedules_explored"] = sched
-    rep.bounds = ["k = 2%s loader threads; names from {valid A, valid B, invalid, UTC, a fixed-offset name}" % (" and 3" if tier == "thorough" else ""),
+    rep.bounds = ["k = 2%s loader threads; names from {valid A, valid B, invalid, UTC, a fixed-offset name}" % (" (all pairs of name kinds) and 3 (at most two of the three first-load a file-backed name: %s)" % [x for x in SCEN_THOROUGH if len(x) == 3] if tier == "thorough" else ""),
                   "every interleaving at synchronisation-point granularity (mutex lock, factory enter, factory exit): %d schedules" % sched,
                   "sequential call histories of length 2-3 (cache hit returns the stored Impl, failures stay UTC)"]
-    rep.outside = ["more threads; pre-emption between synchronisation points (justified by the lockset monitor: the cache is only touched under its mutex)",
+    rep.outside = ["three concurrent first loads of file-backed names (more than 200000 schedules without partial-order reduction)", "more threads; pre-emption between synchronisation points (justified by the lockset monitor: the cache is only touched under its mutex)",
                    "libstdc++'s mutex/guard/hash internals (contracts)", "ThreadSanitizer-style sampling of real threads (different technique)"]
     rep.assumptions = ["pthread mutex, __cxa_guard, std::_Hash_bytes, _M_need_rehash, FixedOffsetFromName and the zone-data factory are contracts (listed in harness/conc.py)",
                        "std::string API modelled (engine/strmodel.py); unordered_map, unique_ptr, lock_guard run from their own IR"]
